@@ -2,7 +2,7 @@
     Statements only; proofs live in C20/MathProofs*.v, C20/MathSweeps*.v, C20/AggProofs.v, C20/Final.v.
     Model: C20/Math.v (values in Z, a type = (width, signedness), explicit wrap / promotion), C20/Agg.v (exact Q). *)
 From Coq Require Import ZArith QArith List.
-From TLXV Require Import C20.Math C20.MathSpec C20.MathProofs C20.MathProofs4 C20.Agg C20.AggProofs C20.Final.
+From TLXV Require Import C20.Math C20.MathSpec C20.MathProofs C20.MathProofs4 C20.MathProofs5 C20.Agg C20.AggProofs C20.Final C20.MathProofs6.
 Import ListNotations.
 Open Scope Z_scope.
 
@@ -109,6 +109,24 @@ Theorem C20_popcount :
   (forall p n, (Pos.size_nat p <= n)%nat -> popcount_spec (Zpos p) = count_bits n (Zpos p)).
 Proof. exact popcount_final. Qed.
 Print Assumptions C20_popcount.
+
+(** div_ceil / round_up called with operands of two different integer types (result type decltype(n + k): usual
+    arithmetic conversions, e.g. signed n with unsigned k): same statements, for all n >= 0, k > 0 of their types. *)
+Theorem C20_div_ceil_round_up_mixed : forall tn tk n k, supported tn -> supported tk ->
+  inrange tn n = true -> inrange tk k = true -> 0 <= n -> 0 < k ->
+  let R := common_type tn tk in
+  n <= div_ceil_mixed tn tk n k * k < n + k /\
+  (inrange R (ceil_div n k * k) = true ->
+     n <= round_up_mixed tn tk n k < n + k /\ (k | round_up_mixed tn tk n k)).
+Proof. exact div_ceil_round_up_mixed_correct. Qed.
+Print Assumptions C20_div_ceil_round_up_mixed.
+
+(** popcount(const void* data, size_t size) (8-byte words, at most one 4-byte word, single bytes; repaired loads,
+    fixes/C20/06) returns the number of one bits of the byte range, for every length. *)
+Theorem C20_popcount_range : forall l, Forall byte l ->
+  popcount_range l = Some (bitsum l) /\ bitsum l = popcount_spec (of_bytes l).
+Proof. exact popcount_range_correct. Qed.
+Print Assumptions C20_popcount_range.
 
 (** Aggregate (exact arithmetic): after ANY history of add / operator+ / operator+= / reset over any number of
     Aggregate variables, every variable has the same count, mean, nvar (hence variance), min and max as one Aggregate
